@@ -224,6 +224,18 @@ def term_bits(bf, t, w):
         for e in peel(t[2][0])[1]:
             out.extend(term_bits(bf, e, 8))
         return extend(out, w, False)
+    if h in ('index', 'cindex'):
+        # byte i of x.to_le_bytes() / x.to_be_bytes()
+        base = peel(t[1])
+        idx = peel(t[2]) if h == 'index' else ('const', t[2])
+        if isinstance(base, tuple) and base[:1] == ('call',) and base[1].endswith(('to_le_bytes', 'to_be_bytes')) and len(base[2]) == 1 and idx[0] == 'const' and (h == 'index' or not t[3]):
+            xw = term_width(bf, base[2][0])
+            if xw:
+                xb = term_bits(bf, base[2][0], xw)
+                n = xw // 8
+                i = idx[1] if base[1].endswith('to_le_bytes') else n - 1 - idx[1]
+                if 0 <= i < n:
+                    return extend(xb[8 * i:8 * i + 8], w, False)
     if h in ('index', 'cindex', 'field', 'call', 'as'):
         name = term_str(t)
         tw = 8 if h in ('index', 'cindex') else w
